@@ -3,7 +3,7 @@ package tls
 //verif:harness C11 reported_server_name_is_wire_sni unwind=4000 instrs=600000000 paths=60000 wall=900
 //verif:stub (*math/rand.Rand).Shuffle zzStubShuffle
 //verif:expect end
-//verif:doc For every predefined parrot x Config.ServerName shapes (DNS name, empty, IPv4 literal; thorough: also trailing dot, bracketed IPv6, zone id, 253 bytes) x RemoveSNIExtension on/off: after Handshake has sent the ClientHello (the peer never answers), ConnectionState().ServerName equals the server name in the SNI extension actually on the wire, and is empty when no SNI was sent.
+//verif:doc For every predefined parrot x Config.ServerName shapes (DNS name, empty, IPv4 literal; thorough: also trailing dot, bracketed IPv6, zone id, 253 bytes) x RemoveSNIExtension on/off x {no further call, SetSNI(other name), BuildHandshakeState then SetSNI(other name)}: after Handshake has sent the ClientHello (the peer never answers), ConnectionState().ServerName equals the server name in the SNI extension actually on the wire, and is empty when no SNI was sent.
 func zzC11ReportedServerNameIsWireSNI() {
 	p := zzChooseParrot()
 	ni := 0
@@ -19,6 +19,15 @@ func zzC11ReportedServerNameIsWireSNI() {
 	remove := verifBool("remove-sni")
 	if remove {
 		verifAssert(uc.RemoveSNIExtension() == nil, "remove-sni-accepted")
+	}
+	// optionally the documented SetSNI edit, before or after an explicit build
+	switch verifChoice("set-sni", 3) {
+	case 1:
+		uc.SetSNI("other.example")
+	case 2:
+		if uc.BuildHandshakeState() == nil {
+			uc.SetSNI("other.example")
+		}
 	}
 	herr := uc.Handshake()
 	verifAssertClass(herr != nil, "handshake-ends-at-eof", p.name)
